@@ -110,11 +110,25 @@ def run(repo, R):
         uses = [n for n in ast.walk(g.node) if isinstance(n, ast.Name) and n.id == coefp and isinstance(n.ctx, ast.Load) and id(n) not in meta]
         tds = [n for n in ast.walk(g.node) if isinstance(n, ast.Call) and ast.unparse(n.func) in ("np.tensordot", "numpy.tensordot") and
                any(isinstance(a, ast.Name) and a.id == coefp for a in n.args[:2])]
-        if not tds and uses:
+        eins = [n for n in ast.walk(g.node) if isinstance(n, ast.Call) and ast.unparse(n.func) in ("np.einsum", "numpy.einsum") and len(n.args) == 3 and
+                isinstance(n.args[0], ast.Constant) and isinstance(n.args[0].value, str) and any(isinstance(a, ast.Name) and a.id == coefp for a in n.args[1:])]
+        if not tds and len(eins) == 1 and len(uses) == 1:
+            # np.einsum("k...,kln->...ln", coeffs, values): the coefficients' first axis summed against the values' first axis
+            spec = eins[0].args[0].value.replace(" ", "")
+            ins, out_ = spec.split("->")
+            subs = ins.split(",")
+            pos = [k for k, a in enumerate(eins[0].args[1:]) if isinstance(a, ast.Name) and a.id == coefp][0]
+            sc, so = subs[pos], subs[1 - pos]
+            oke = bool(sc) and sc[0] != "." and sc[0] == so[0] and sc[0] not in out_ and not [ch for ch in sc[1:].replace("...", "") if ch in so]
+            R.check(oke, "LIN", g.site, f"np.einsum('{spec}', ...) contracts the primitive axis of {coefp}",
+                    "the evaluation back-end must use the coefficient matrix exactly once, contracting its primitive axis", where=g.where(eins[0]))
+            tds = None
+        if tds is not None and not tds and uses:
             raise AnalysisError("LIN", f"{g.name}: the coefficients are not contracted with np.tensordot: idiom not recognised", g.where(uses[0]))
-        ok = len(uses) == 1 and len(tds) == 1 and ast.unparse(tds[0].args[2]) == "(0, 0)" and ast.unparse(tds[0].args[0]) == coefp
-        R.check(ok, "LIN", g.site, f"np.tensordot({coefp}, ..., (0, 0)) is the only use of {coefp}",
-                "the evaluation back-end must use the coefficient matrix exactly once, contracting its primitive axis", where=g.where())
+        if tds is not None:
+            ok = len(uses) == 1 and len(tds) == 1 and ast.unparse(tds[0].args[2]) == "(0, 0)" and ast.unparse(tds[0].args[0]) == coefp
+            R.check(ok, "LIN", g.site, f"np.tensordot({coefp}, ..., (0, 0)) is the only use of {coefp}",
+                    "the evaluation back-end must use the coefficient matrix exactly once, contracting its primitive axis", where=g.where())
         bad = []
         for n in ast.walk(g.node):
             if isinstance(n, ast.Subscript) and isinstance(n.value, ast.Name) and n.value.id == alphap:
